@@ -483,7 +483,9 @@ pub fn c08(x: &str, out: &str, cfg: &Cfg, opts: &C08Opts, ctx: &mut Ctx) {
         if let Some(v) = ctx.stats.violations.last_mut() {
             if v.property == "C08" && !v.signature.contains("lone-cr") {
                 let old = format!("C08|{}", v.signature);
-                v.signature = format!("{}:line-comment-ended-by-lone-cr", v.signature);
+                // (the mechanism explains the failure whatever else was observed on the way)
+                let base = v.signature.split(':').next().unwrap_or("").to_string();
+                v.signature = format!("{base}:line-comment-ended-by-lone-cr");
                 let new = format!("C08|{}", v.signature);
                 if let Some(n) = ctx.stats.by_signature.get_mut(&old) {
                     *n -= 1;
